@@ -9,6 +9,10 @@ namespace Lockable
 
 inductive Stmt where
   | lock (v : Variant) (k : Nat) (limit : Option Nat)
+  /-- `async_lock` polled once by hand; the pending future stays in the slot -/
+  | alock (k : Nat)
+  | apoll (slot : Nat)
+  | acancel (slot : Nat)
   | op (slot : Nat) (g : GOp)
   | drop (slot : Nat)
   | count | keys
@@ -24,8 +28,12 @@ deriving Repr
 inductive Park where
   | start
   | gLookup (slot : Nat) (v : Variant) (k : Nat) (limit : Option Nat)
+  | gLookupPoll (slot : Nat) (k : Nat)
   | key (slot : Nat) (v : Variant)
+  /-- after the lookup of an `alock` -/
+  | keyPoll (slot : Nat)
   | blocked (slot : Nat)
+  | gCancel (h : Nat)
   | gCleanup (slot : Nat)
   | gRelease (h : Nat) (c : Cont)
   | gCount | gKeys
@@ -34,6 +42,8 @@ deriving Repr
 
 inductive Event where
   | lock (slot : Nat) (got : Bool)
+  | lockPending (slot : Nat)
+  | poll (slot : Nat) (got : Bool)
   | op (slot : Nat) (o : Out)
   | count (o : Out) | keys (o : Out)
   | ev (cands : List (Nat × Nat))
@@ -48,6 +58,8 @@ structure Thread where
   /-- slots currently holding a guard -/
   got : List Nat
   ncand : Nat
+  /-- slots holding a pending (manually polled) acquisition -/
+  pend : List Nat := []
 deriving Repr
 
 structure Sched where
@@ -58,7 +70,11 @@ def hidOf (t slot : Nat) : Nat := 1000 * (t + 1) + slot
 def candBase (t : Nat) (ncand : Nat) : Nat := 1000 * (t + 1) + 500 + ncand
 
 def Sched.init (kind : Kind) (n : Nat) : Sched :=
-  { s := State.init kind, threads := List.replicate n ⟨[], .start, 0, [], 0⟩ }
+  { s := State.init kind, threads := List.replicate n ⟨[], .start, 0, [], 0, []⟩ }
+
+def insertSlot (x : Nat) : List Nat → List Nat
+  | [] => [x]
+  | y :: ys => if x ≤ y then x :: y :: ys else y :: insertSlot x ys
 
 /-- run the hook-free statements of the program up to the next park point -/
 def advance (s : State) (t : Nat) (th : Thread) (evs : List Event) : Nat → State × Thread × List Event
@@ -66,13 +82,20 @@ def advance (s : State) (t : Nat) (th : Thread) (evs : List Event) : Nat → Sta
   | fuel + 1 =>
     match th.prog with
     | [] =>
-      -- implicit drops of the guards still held, ascending slot order
-      match th.got with
-      | [] => (s, { th with park := .done }, evs)
-      | slot :: rest =>
-        let h := hidOf t slot
+      -- implicit release of the slots still in use, ascending slot order: guards are dropped, pending futures cancelled
+      match th.got, th.pend with
+      | [], [] => (s, { th with park := .done }, evs)
+      | g :: grest, p :: prest =>
+        if g < p then
+          let h := hidOf t g
+          let (s1, _) := stamp s h
+          (s1, { th with got := grest, park := .gRelease h .prog }, evs)
+        else (s, { th with pend := prest, park := .gCancel (hidOf t p) }, evs)
+      | g :: grest, [] =>
+        let h := hidOf t g
         let (s1, _) := stamp s h
-        (s1, { th with got := rest, park := .gRelease h .prog }, evs)
+        (s1, { th with got := grest, park := .gRelease h .prog }, evs)
+      | [], p :: prest => (s, { th with pend := prest, park := .gCancel (hidOf t p) }, evs)
     | st :: rest =>
       match st with
       | .lock v k limit =>
@@ -88,15 +111,26 @@ def advance (s : State) (t : Nat) (th : Thread) (evs : List Event) : Nat → Sta
           let (s1, _) := stamp s h
           (s1, { th with prog := rest, got := th.got.erase slot, park := .gRelease h .prog }, evs)
         else advance s t { th with prog := rest } (evs ++ [.skip]) fuel
+      | .alock k =>
+        (s, { th with prog := rest, park := .gLookupPoll th.nslot k, nslot := th.nslot + 1 }, evs)
+      | .apoll slot =>
+        if th.pend.contains slot then
+          let (s1, o) := acquire s (hidOf t slot)
+          match o with
+          | .bool true =>
+            advance s1 t { th with prog := rest, pend := th.pend.erase slot, got := insertSlot slot th.got }
+              (evs ++ [.poll slot true]) fuel
+          | _ => advance s1 t { th with prog := rest } (evs ++ [.poll slot false]) fuel
+        else advance s t { th with prog := rest } (evs ++ [.skip]) fuel
+      | .acancel slot =>
+        if th.pend.contains slot then
+          (s, { th with prog := rest, pend := th.pend.erase slot, park := .gCancel (hidOf t slot) }, evs)
+        else advance s t { th with prog := rest } (evs ++ [.skip]) fuel
       | .count => (s, { th with prog := rest, park := .gCount }, evs)
       | .keys => (s, { th with prog := rest, park := .gKeys }, evs)
 
-def insertSlot (x : Nat) : List Nat → List Nat
-  | [] => [x]
-  | y :: ys => if x ≤ y then x :: y :: ys else y :: insertSlot x ys
-
 def gotGuard (s : State) (t : Nat) (th : Thread) (slot : Nat) (evs : List Event) : State × Thread × List Event :=
-  advance s t { th with got := insertSlot slot th.got } (evs ++ [.lock slot true]) (th.prog.length + th.got.length + 3)
+  advance s t { th with got := insertSlot slot th.got } (evs ++ [.lock slot true]) (th.prog.length + th.got.length + th.pend.length + 3)
 
 /-- inside the cooperative callback: `remove()` and start dropping the next candidate -/
 def processCands (s : State) (th : Thread) (cands : List Nat) (slot : Nat) (v : Variant) (k n : Nat)
@@ -115,7 +149,7 @@ def isFail : Out → Bool
   | _ => false
 
 def stepThread (s : State) (t : Nat) (th : Thread) : State × Thread × List Event :=
-  let fuelOf (th : Thread) := th.prog.length + th.got.length + 3
+  let fuelOf (th : Thread) := th.prog.length + th.got.length + th.pend.length + 3
   match th.park with
   | .start => advance s t th [] (fuelOf th)
   | .gLookup slot v k limit =>
@@ -132,6 +166,24 @@ def stepThread (s : State) (t : Nat) (th : Thread) : State × Thread × List Eve
         processCands s1 { th with ncand := th.ncand + cands.length } cands slot v k n evs
       | .unit => (s1, { th with park := .key slot v }, [])
       | o => (s1, { th with park := .done }, [.fail o])
+  | .gLookupPoll slot k =>
+    let (s1, o) := lookup s (hidOf t slot) k
+    if isFail o then (s1, { th with park := .done }, [.fail o]) else (s1, { th with park := .keyPoll slot }, [])
+  | .keyPoll slot =>
+    let h := hidOf t slot
+    match s.hs h with
+    | some hd =>
+      if hd.st = .holding then gotGuard s t th slot [] else
+      let (s1, o) := enqueue s h
+      match o with
+      | .bool true => gotGuard s1 t th slot []
+      | .bool false =>
+        advance s1 t { th with pend := insertSlot slot th.pend } [.lockPending slot] (fuelOf th)
+      | o => (s1, { th with park := .done }, [.fail o])
+    | none => (s, { th with park := .done }, [.fail .bad])
+  | .gCancel h =>
+    let (s1, o) := cancel s h
+    if isFail o then (s1, { th with park := .done }, [.fail o]) else advance s1 t th [] (fuelOf th)
   | .key slot v =>
     let h := hidOf t slot
     match s.hs h with
@@ -188,8 +240,8 @@ def runnable (s : State) (t : Nat) (th : Thread) : Bool :=
 def statusChar (s : State) (t : Nat) (th : Thread) : String :=
   match th.park with
   | .start => "S"
-  | .gLookup .. | .gCleanup _ | .gRelease .. | .gCount | .gKeys => "G"
-  | .key .. => "K"
+  | .gLookup .. | .gLookupPoll .. | .gCancel _ | .gCleanup _ | .gRelease .. | .gCount | .gKeys => "G"
+  | .key .. | .keyPoll _ => "K"
   | .blocked _ => if runnable s t th then "W" else "B"
   | .done => "D"
 
